@@ -200,8 +200,12 @@ func (g *didGen) buildDoc(id string, k int, shape int) (string, *didtypes.DIDDoc
 		l := didtypes.JSONStringOrStrings{id}
 		doc.Controller = &l
 		g.add("DCTRL %s %s", ref, toks(id))
-		doc.Services = append(doc.Services, &didtypes.Service{Id: "svc1", Type: "LinkedDomains", ServiceEndpoint: "https://example.org"})
-		g.add("DSVC %s %s %s %s", ref, toks("svc1"), toks("LinkedDomains"), toks("https://example.org"))
+		ep := "https://example.org"
+		if genK3 && g.r.Chance(15) {
+			ep = pick(g.r, []string{"https://\xff", "\xc3", "caf\xc3\xa9"}) // the first two are not UTF-8 (K3)
+		}
+		doc.Services = append(doc.Services, &didtypes.Service{Id: "svc1", Type: "LinkedDomains", ServiceEndpoint: ep})
+		g.add("DSVC %s %s %s %s", ref, toks("svc1"), toks("LinkedDomains"), toks(ep))
 	case 6: // malformed: verification method id without the DID prefix
 		vm("nokey", didtypes.ES256K_2019, key.b58)
 		relRef("auth", "nokey")
